@@ -77,7 +77,20 @@ class Order:
         if t["k"] != "call":
             return False
         ok = any(m.rx.fullmatch(n) for n in names(t))
-        if not ok and m.reach:
+        if not ok and m.reach == "must":
+            # wrapper rule: the callee counts only if *all* its Ok-returning paths perform the effect
+            kind, tg = self.P.resolve(t["callee"])
+            if kind == "ws" and tg:
+                ok = all(self.must_reach(g, m) for g in tg)
+            elif kind == "external":
+                for a in t["args"]:
+                    pl = op_place(a)
+                    if pl is None:
+                        continue
+                    for K in body.locals[pl["l"]].get("closures", []):
+                        if K in self.P.bodies and self.must_reach(K, m):
+                            ok = True
+        elif not ok and m.reach:
             kind, tg = self.P.resolve(t["callee"])
             if kind == "ws":
                 for g in tg:
@@ -97,6 +110,48 @@ class Order:
         if ok and m.where is not None:
             ok = bool(m.where(body, b, t))
         return ok
+
+    def must_reach(self, gid, m, _stack=None):
+        """True iff every path of workspace body gid from entry to an Ok-kind exit passes a call matching m
+        (directly, or a call to a body for which this holds recursively)."""
+        key = (gid, m.rx.pattern, id(m.where))
+        cache = self.__dict__.setdefault("_must", {})
+        if key in cache:
+            return cache[key]
+        _stack = _stack or set()
+        if gid in _stack or gid not in self.P.bodies:
+            return False
+        _stack = _stack | {gid}
+        G = self.P.bodies[gid]
+        direct = M(m.rx.pattern, reach=False, where=m.where, label=m.label)
+        asites = []
+        for b in G.reachable():
+            t = G.blocks[b]["term"]
+            if t["k"] != "call":
+                continue
+            if self.matches(G, b, direct):
+                asites.append(b)
+                continue
+            kind, tg = self.P.resolve(t["callee"])
+            if kind == "ws" and tg and all(self.must_reach(h, m, _stack) for h in tg):
+                asites.append(b)
+            elif kind == "external":
+                for a in t["args"]:
+                    pl = op_place(a)
+                    if pl is not None:
+                        for K in G.locals[pl["l"]].get("closures", []):
+                            if K in self.P.bodies and self.must_reach(K, m, _stack):
+                                asites.append(b)
+        res = False
+        if asites:
+            inn = self.seen_before(G, asites)
+            ek = self.exit_kinds(G)
+            oks = [b for b, k in ek.items() if k == "ok"]
+            if not oks:
+                oks = G.return_blocks()
+            res = all(inn[b] or b in asites for b in oks)
+        cache[key] = res
+        return res
 
     def sites(self, body, m):
         return [b for b in body.reachable() if self.matches(body, b, m)]
